@@ -12,6 +12,7 @@ import (
 	"sort"
 	"strings"
 	"testing"
+	"time"
 
 	"github.com/libp2p/go-libp2p/core/peer"
 	ma "github.com/multiformats/go-multiaddr"
@@ -41,11 +42,14 @@ func TestVerifC06(t *testing.T) {
 	cs := vfNewCases("Run_C06", 100)
 	cs.caseType = "case6"
 	root := vfNewRand(seed)
+	vfStartWatchdog(60 * time.Second)
+	defer vfStopWatchdog()
 	for i := 0; i < n; i++ {
 		r := root.Fork()
 		if only >= 0 && i != only {
 			continue
 		}
+		vfBeat(map[string]any{"case": i, "seed": seed})
 		op := i % len(c06Ops)
 		c, w := wGen(r, i)
 		c.cancelAt = -1
